@@ -353,7 +353,10 @@ def make_view(b, rng, a):
     elif fn == "expand_dims":
         p = {"axis": rng.randint(-nd - 1, nd)}
     sp = "method" if fn in ("reshape", "transpose") and rng.random() < 0.5 else "mg"
-    return b.apply(fn, [a], p, spell=sp)
+    const = None
+    if fn != "getitem" and a.dtype.startswith("float") and rng.random() < 0.15:
+        const = rng.random() < 0.5          # a view whose constant flag is given explicitly (it may differ from its base's); every flag survives every update
+    return b.apply(fn, [a], p, const=const, spell=sp)
 
 
 def rand_value(b, rng, shape):
@@ -445,6 +448,24 @@ def gen_family_history(rng, n_events=None, with_backward=False):
             for cand in (v2, v1, own):
                 if cand is not None and rng.random() < 0.8:
                     mutate(b, rng, cand)
+    if rng.random() < 0.15:
+        # a view whose constant flag differs from its base's (given explicitly), then updates through the view with every kind of in-place statement,
+        # in particular out= with a where= mask: base, view and siblings keep their flags
+        cb = rng.random() < 0.6
+        x = b.leaf(rng.choice([(4,), (2, 3), (2, 2)]), const=cb)
+        fnv = rng.choice(["reshape", "transpose", "swapaxes", "expand_dims"])
+        pv = {"reshape": {"shape": [-1]}, "transpose": {"axes": None}, "swapaxes": {"a1": 0, "a2": -1}, "expand_dims": {"axis": 0}}[fnv]
+        v = b.apply(fnv, [x], pv, const=not cb, spell="mg")
+        sib = b.apply("getitem", [x], {"index": [{"ellipsis": True}]})
+        if v is not None:
+            for _ in range(rng.randint(1, 3)):
+                tgt = rng.choice([v, v, x] + ([sib] if sib is not None else []))
+                if rng.random() < 0.6:
+                    a1, a2 = rand_value(b, rng, tgt.shape), rand_value(b, rng, tgt.shape)
+                    where = [rng.random() < 0.6 for _ in range(tgt.size)]
+                    b.out_op(tgt, rng.choice(["add", "multiply", "subtract"]), [a1, a2], where, tgt.shape)
+                else:
+                    mutate(b, rng, tgt)
     if rng.random() < 0.2:
         # a view OF A VIEW whose shape is then assigned in place, beside a sibling view; followed by updates through owner / views
         x = b.leaf(rng.choice([(8,), (2, 4), (6,)]), const=rng.random() < 0.1)
